@@ -279,7 +279,18 @@ def write_replay(pid, case, bucket, detail):
     return os.path.relpath(path, ROOT)
 
 
+def _limit_memory():
+    """address-space guard (see worker_main): also for the parent, which replays the saved inputs itself"""
+    try:
+        import resource
+        cap = int(float(os.environ.get("VERIF_WORKER_MEM_GB", "6")) * 2 ** 30)
+        resource.setrlimit(resource.RLIMIT_AS, (cap, cap))
+    except Exception:
+        pass
+
+
 def run_main(pid, tier):
+    _limit_memory()
     t0 = time.time()
     seed = int(os.environ.get("VERIF_SEED", "1"))
     mod = load_prop(pid)
@@ -446,6 +457,7 @@ def _assert_repo_import():
 
 
 def replay_main(path):
+    _limit_memory()
     with open(path) as f:
         d = json.load(f)
     pid = d["property"]
